@@ -87,6 +87,8 @@ def sendReq {σ} (hook : ObjHook σ) (w : World σ) (r : Req) (noResponse : Bool
   match buildRequest r w.drv.ctx with
   | .error e => (w, .error e)
   | .ok frame =>
+    -- `self._sock` is None before open() / after close(): AttributeError inside _send's try -> CommError
+    if !w.drv.hasSock then (w, .error .comm) else
     let (n1, s) := w.net.sockSend hook frame
     match s with
     | .error _ => ({ w with net := n1 }, .error .comm)
@@ -124,7 +126,7 @@ def registerSession {σ} (hook : ObjHook σ) (w : World σ) : World σ × Except
 def openDrv {σ} (hook : ObjHook σ) (w : World σ) (rnd : Bytes) : World σ × Except Exn Bool :=
   if w.drv.connectionOpened then (w, .ok true) else
   let d := { w.drv with hasSock := true, connectionOpened := true, cid := rnd.take 4, vsn := (rnd.drop 4).take 4 }
-  let w1 : World σ := { drv := d, net := { w.net with tcpOpen := true } }
+  let w1 : World σ := { drv := d, net := { w.net with tcpOpen := true, pending := if w.drv.hasSock then w.net.pending else [] } }
   let (w2, r) := registerSession hook w1
   match r with
   | .error _ => (w2, .error .comm)
